@@ -94,6 +94,8 @@ type PolicySpec struct {
 	// Yields: the scheduling points inserted in front of the engine's accesses to
 	// shared in-memory state are active (first incarnation only).
 	Yields bool `json:"yields,omitempty"`
+	// YieldAllGens: experimental, never generated (see World.Yield).
+	YieldAllGens bool `json:"yield_all_gens,omitempty"`
 }
 
 // CrashSpec is one process death.
